@@ -466,6 +466,7 @@ static void run_config(int id, int depth)
 		snprintf(cfg_name, sizeof(cfg_name), "1line+empty+new");
 	}
 	nx_bound = depth;
+	snprintf(nx_cfg_args, sizeof(nx_cfg_args), "cfg=%d", id);
 	nx_run(4, argv);
 	nv_stat("configurations", 1);
 	nv_stat("distinct_nontrivial", nx_sh->distinct);
